@@ -141,7 +141,7 @@ PROPS = {
   'rule': 'schedules with 1..2 archives, warm or cold cache, 2..6 tile requests and 0..3 replacements (new versions with different sizes, layouts, leaf structures; occasional deletion) placed before or between '
           'the releases of blocked bucket calls; systematic schedules: one tile request, every placement of up to two replacements among its bucket calls x cold/warm cache x with/without a replacement completed beforehand, '
           'versions sharing tile ids and tile type but not layout; micro schedules: the event loop held inside the trace sink at one request\'s header lookup while another request\'s purging retry queues up '
-          '(oracle only, the executable model is macro-step). Non-trivial: at least one replacement; distinct by case line',
+          '(oracle only, the executable model is macro-step). About one request in seven is a metadata or TileJSON request; calls blocked with identical arguments are released together. Non-trivial: at least one replacement; distinct by case line',
   'trusted_base': ['the Go scheduler, channel semantics and real time are abstracted to an interleaving LTS at the granularity of loop messages and bucket calls (coq/Model/Server.v)',
                    'the scheduling bucket of the harness stands for the bucket contract of the property (tag per version, conditional reads honoured)',
                    'quiescence of the real server is detected from goroutine states (runtime.Stack)', GZIP],
